@@ -136,11 +136,84 @@ def detect_grid_fill(repo) -> bool:
     raise RuntimeError(f"GridObject.copy: unrecognised blank array {src}")
 
 
+_DRILL = None
+_GCLEAN = None
+
+
+def detect_drill_fixed(repo) -> bool:
+    """Does Drillhole define its own copy_from_extent (copy the whole hole iff the collar is selected)? (fail-closed)"""
+    import ast
+    from pathlib import Path
+
+    tree = ast.parse((Path(repo) / "geoh5py/objects/drillhole.py").read_text())
+    fn = None
+    for node in ast.walk(tree):
+        if isinstance(node, ast.ClassDef) and node.name == "Drillhole":
+            for sub in node.body:
+                if isinstance(sub, ast.FunctionDef) and sub.name == "copy_from_extent":
+                    fn = sub
+    if fn is None:
+        return False
+    has_any = any(isinstance(x, ast.Call) and isinstance(x.func, ast.Attribute) and x.func.attr == "any" for x in ast.walk(fn))
+    rets = [r for r in ast.walk(fn) if isinstance(r, ast.Return) and isinstance(r.value, ast.Call)
+            and isinstance(r.value.func, ast.Attribute) and r.value.func.attr == "copy"]
+    if has_any and len(rets) == 1 and not any(k.arg == "mask" for k in rets[0].value.keywords):
+        return True
+    raise RuntimeError("Drillhole.copy_from_extent: unrecognised shape")
+
+
+def detect_group_cleanup(repo) -> bool:
+    """Group.copy_from_extent: is the loop over the children inside a try whose handler removes the group copy and re-raises?"""
+    import ast
+    from pathlib import Path
+
+    tree = ast.parse((Path(repo) / "geoh5py/groups/base.py").read_text())
+    fn = None
+    for node in ast.walk(tree):
+        if isinstance(node, ast.FunctionDef) and node.name == "copy_from_extent":
+            fn = node
+    if fn is None:
+        raise RuntimeError("Group.copy_from_extent not found")
+    loops = [n for n in ast.walk(fn) if isinstance(n, ast.For)]
+    if len(loops) != 1:
+        raise RuntimeError("Group.copy_from_extent: expected one loop over the children")
+    tries = [t for t in ast.walk(fn) if isinstance(t, ast.Try) and any(loops[0] is x for b in t.body for x in ast.walk(b))]
+    if not tries:
+        return False
+    if len(tries) == 1 and len(tries[0].handlers) == 1:
+        h = tries[0].handlers[0]
+        removes = any(isinstance(x, ast.Call) and isinstance(x.func, ast.Attribute) and x.func.attr == "remove_entity" for x in ast.walk(h))
+        if removes and any(isinstance(x, ast.Raise) for x in ast.walk(h)):
+            return True
+    raise RuntimeError("Group.copy_from_extent: unrecognised try around the children loop")
+
+
 def regenerate(repo):
-    global _FILL, _GFILL
+    global _FILL, _GFILL, _DRILL, _GCLEAN
     _FILL = detect_fill(repo)
     _GFILL = detect_grid_fill(repo)
-    return {"tables": {"repair_flags": {"grid_fill_span": _FILL, "grid_copy_blank_by_kind": _GFILL}}}
+    _DRILL = detect_drill_fixed(repo)
+    _GCLEAN = detect_group_cleanup(repo)
+    return {"tables": {"repair_flags": {"grid_fill_span": _FILL, "grid_copy_blank_by_kind": _GFILL,
+                                        "drillhole_copy_by_collar": _DRILL, "group_copy_cleanup": _GCLEAN}}}
+
+
+def _drill_term():
+    global _DRILL
+    if _DRILL is None:
+        from vlib import common as C
+
+        _DRILL = detect_drill_fixed(C.REPO)
+    return cbool(_DRILL)
+
+
+def _gclean_term():
+    global _GCLEAN
+    if _GCLEAN is None:
+        from vlib import common as C
+
+        _GCLEAN = detect_group_cleanup(C.REPO)
+    return cbool(_GCLEAN)
 
 
 def _gfill_term():
@@ -424,6 +497,7 @@ def _gen_located_case(rng):
         hi = [2 * (x + case["n"] * case["size"]) for x in case["origin"]]
     else:
         case["collar"] = [rng.range(-3, 3), rng.range(-3, 3), rng.range(-2, 2)]
+        case["stations"] = rng.choice([0, 0, 2, 3, 4])   # 0: no depth data (no vertices); k: depth data at k stations
         lo = [2 * x - 2 for x in case["collar"]]
         hi = [2 * x + 2 for x in case["collar"]]
     box = []
@@ -457,7 +531,8 @@ def _gen_group_case(rng):
     sub = [child() for _ in range(rng.range(1, 2))] if rng.chance(45) else None
     allv = [p for c in kids + (sub or []) for p in c["verts"]]
     box = _gen_box(rng, allv, 2 if rng.chance(45) else 3)
-    box = [[min(lo, hi), max(lo, hi)] for lo, hi in box]   # no inverted boxes: a refusing child would abort the group copy
+    if not rng.chance(7):
+        box = [[min(lo, hi), max(lo, hi)] for lo, hi in box]   # mostly valid boxes: an inverted one makes every child refuse
     return {"kind": "group", "children": kids, "sub": sub, "sub_at": rng.below(len(kids) + 1), "box": box, "inverse": rng.chance(30)}
 
 
@@ -630,7 +705,13 @@ def _drive_located(case, ws):
                            u_cell_size=sz, v_cell_size=sz, w_cell_size=sz, rotation=0.0)
         locs = np.asarray(ob.centroids)
     else:
-        ob = Drillhole.create(ws, collar=[float(x) for x in case["collar"]])
+        k = case.get("stations", 0)
+        kw = {"collar": [float(x) for x in case["collar"]], "name": "hole"}
+        if k:
+            kw["surveys"] = np.c_[np.linspace(0, 10, 3), np.zeros(3), np.ones(3) * -90]
+        ob = Drillhole.create(ws, **kw)
+        if k:
+            ob.add_data({"assay": {"depth": np.arange(1.0, k + 1.0), "values": np.arange(float(k))}})
         locs = np.array([[ob.collar["x"], ob.collar["y"], ob.collar["z"]]], dtype=float)
     ext = np.array(case["box_half"], dtype=float).T / 2.0
     out = {"locs2": [[_r2(x) for x in p] for p in locs.tolist()]}
@@ -649,6 +730,14 @@ def _drive_located(case, ws):
                 spec["value_map"] = {j: f"unit{j}" for j in range(1, 6)}
             ob.add_data({f"d{i + 1}": spec})
     out["mask"] = _mask_obs(lambda: ob.mask_by_extent(ext, inverse=bool(case["inverse"])))
+    if case["what"] == "drill":
+        out["n_vertices"] = None if ob.n_vertices is None else int(ob.n_vertices)
+        try:
+            cp = ob.copy_from_extent(ext, inverse=bool(case["inverse"]))
+            out["hole_copy"] = {"none": True} if cp is None else {"n_vertices": None if cp.n_vertices is None else int(cp.n_vertices),
+                                                                   "collar": [_r2(cp.collar[a]) for a in ("x", "y", "z")]}
+        except Exception as e:  # noqa: BLE001
+            out["hole_copy"] = {"error": type(e).__name__}
     if case.get("kids"):
         try:
             cp = ob.copy_from_extent(ext, inverse=bool(case["inverse"]))
@@ -696,7 +785,10 @@ def _drive_group(case, ws):
     try:
         cp = grp.copy_from_extent(ext, inverse=bool(case["inverse"]))
     except Exception as e:  # noqa: BLE001
-        return {"order": src_order, "copy": {"error": type(e).__name__}}
+        err = type(e).__name__
+        del e
+        # is a second group with the source's name left under the root (in the tree the file is written from)?
+        return {"order": src_order, "copy": {"error": err, "stray": sum(1 for c in ws.root.children if c.name == "grp") > 1}}
     if cp is None:
         return {"order": src_order, "copy": {"none": True}}
 
@@ -798,9 +890,18 @@ def _mesh_obj_term(spec):
 
 def _group_term(case, obs):
     cp = obs["copy"]
-    if "error" in cp:
-        return "false"
     e, inv = _ext_term(case["box"]), cbool(case["inverse"])
+    if "error" in cp:
+        if cp["error"] not in G.ERRS:
+            return "false"
+        rs = []
+        for name in obs["order"]:
+            if name == "s":
+                sub = clist("res_unit (child_copy_res %s %s %s)" % (_mesh_obj_term(sp), e, inv) for sp in case["sub"])
+                rs.append("group_as_child (group_copy_run %s %s)" % (_gclean_term(), sub))
+            else:
+                rs.append("res_unit (child_copy_res %s %s %s)" % (_mesh_obj_term(case["children"][int(name[1:])]), e, inv))
+        return "group_fail_agrees %s %s %s %s" % (_gclean_term(), clist(rs), cp["error"], cbool(cp["stray"]))
     order = obs["order"]
     if sorted(order) != sorted([f"c{i}" for i in range(len(case["children"]))] + (["s"] if case["sub"] is not None else [])):
         return "false"
@@ -844,6 +945,23 @@ def _case_term(case, obs):
         locs = clist(G._pt(p) for p in obs["locs2"])
         fn = "drillhole_mask %s" % G._pt(obs["locs2"][0]) if case["what"] == "drill" else "grid_object_mask %s" % locs
         term = "rmask_eqb (%s %s %s) (%s)" % (fn, _ext_term(case["box_half"]), cbool(case["inverse"]), m)
+        if case["what"] == "drill":
+            hc = obs["hole_copy"]
+            if "error" in hc:
+                if hc["error"] not in G.ERRS:
+                    return "false"
+                ho = "Err %s" % hc["error"]
+            elif hc.get("none"):
+                ho = "Ok None"
+            else:
+                # a copy: the whole hole (same vertex count, same collar), or, from the one-vertex mask path, a hole without it
+                if hc["collar"] != obs["locs2"][0]:
+                    return "false"
+                ho = "Ok (Some %s)" % cbool(hc["n_vertices"] == obs["n_vertices"])
+            nv = "None" if obs["n_vertices"] is None else "(Some %s)" % cnat(obs["n_vertices"])
+            term += (" && match drillhole_copy_from_extent %s %s %s %s %s, (%s : res (option bool)) with "
+                     "| Ok None, Ok None => true | Ok (Some a), Ok (Some b) => Bool.eqb a b | Err x, Err y => err_eqb x y | _, _ => false end") % (
+                _drill_term(), G._pt(obs["locs2"][0]), nv, _ext_term(case["box_half"]), cbool(case["inverse"]), ho)
         if case.get("kids"):
             n, cp = obs["n_cells"], obs["copy"]
             ks = clist("(%s, %s)" % (KIND[kd["kind"]], G._vals_term(kd["pool"][:1] if kd.get("object") else kd["pool"][:n])) for kd in case["kids"])
@@ -1111,6 +1229,19 @@ def _oracle_located(case, obs):
             return [{"key": "located-none-but-elements-qualify", "what": f"None although locations qualify (box {box})"}]
     elif om["mask"] != q:
         return [{"key": "located-mask-not-exact", "what": f"{case['what']}: mask {om['mask']} != expected {q} for locations {locs}, box {box}, inverse {inv}"}]
+    if case["what"] == "drill":
+        hc, sel = obs["hole_copy"], (q[0] and not miss)
+        if "error" in hc:
+            return [{"key": "drillhole-copy-from-extent-raises" if obs["n_vertices"] not in (None, 1) else "drillhole-copy-raised",
+                     "what": f"Drillhole.copy_from_extent raised {hc['error']} (collar {'selected' if sel else 'not selected'}, n_vertices {obs['n_vertices']})"}]
+        if hc.get("none"):
+            if sel:
+                return [{"key": "drillhole-not-copied", "what": "the collar is selected but copy_from_extent returned None"}]
+        elif not sel:
+            return [{"key": "drillhole-copied-though-collar-not-selected",
+                     "what": f"the collar does not qualify (box {box}, inverse {inv}) but the hole was copied"}]
+        elif hc["n_vertices"] != obs["n_vertices"] or hc["collar"] != locs[0]:
+            return [{"key": "drillhole-copy-differs", "what": f"the copy has {hc['n_vertices']} vertices / collar {hc['collar']}, the hole {obs['n_vertices']} / {locs[0]}"}]
     if case.get("kids"):
         # copy_from_extent of a block model / octree: same grid, cell data keep their value inside the box and hold the kind's
         # no-data value outside, object-level data are copied as they are
@@ -1138,7 +1269,12 @@ def _oracle_located(case, obs):
 def _oracle_group(case, obs):
     cp = obs["copy"]
     if "error" in cp:
-        return [{"key": "group-copy-raised", "what": f"Group.copy_from_extent raised {cp['error']}"}]
+        if cp.get("stray"):
+            return [{"key": "group-copy-failure-leaves-stray-group",
+                     "what": f"Group.copy_from_extent raised {cp['error']} and left the partial group copy in the workspace"}]
+        if all(lo <= hi for lo, hi in case["box"]):
+            return [{"key": "group-copy-raised", "what": f"Group.copy_from_extent raised {cp['error']} for a valid box"}]
+        return []   # an inverted box is refused: nothing is defined, nothing is left behind
 
     def status(spec):
         """(must be kept, must be dropped) by the text: something qualifies / the box misses the bounding box"""
